@@ -54,6 +54,8 @@ type Contract struct {
 	Props    []string
 	Requires []*Clause
 	Ensures  []*Clause
+	Relies   []*Clause // data-structure invariants assumed at entry and NOT asserted at call sites (rely/guarantee; listed in evidence)
+	Postulates []*Clause // assumed at call sites, not proved for the body (ghost accounting attached to a wrapper)
 	Modifies []string
 	HasMod   bool
 	Decr     Expr
@@ -92,7 +94,7 @@ type ContractFile struct {
 }
 
 var clauseKeywords = map[string]bool{"func": true, "interface": true, "extern": true, "functype": true, "global": true, "ghost": true,
-	"props": true, "requires": true, "ensures": true, "modifies": true, "loop": true, "decreases": true, "inline": true,
+	"props": true, "requires": true, "relies": true, "ensures": true, "postulate": true, "modifies": true, "loop": true, "decreases": true, "inline": true,
 	"trusted": true, "overflow": true, "nosafety": true, "from:": true, "end": true}
 
 var tagRe = regexp.MustCompile(`^\[([A-Za-z0-9_, ]+)\]\s*`)
@@ -205,7 +207,7 @@ func parseContractFile(path string) (*ContractFile, error) {
 			switch kw {
 			case "props":
 				cur.Props = append(cur.Props, fields[1:]...)
-			case "requires", "ensures":
+			case "requires", "ensures", "postulate", "relies":
 				tags, label, src := splitTagsLabel(rest)
 				e, err := parseExpr(src)
 				if err != nil {
@@ -214,6 +216,10 @@ func parseContractFile(path string) (*ContractFile, error) {
 				cl := &Clause{Kind: kw, Tags: tags, Label: label, Src: src, E: e, Line: rc.line}
 				if kw == "requires" {
 					cur.Requires = append(cur.Requires, cl)
+				} else if kw == "relies" {
+					cur.Relies = append(cur.Relies, cl)
+				} else if kw == "postulate" {
+					cur.Postulates = append(cur.Postulates, cl)
 				} else {
 					cur.Ensures = append(cur.Ensures, cl)
 				}
